@@ -618,6 +618,7 @@ func newInterpreter(sh *Shared, cfg *Config) *interpreter {
 		fninfo:           map[*ssa.Function]*fnInfo{},
 		tb:               smt.NewTable(),
 		summaries:        map[*ssa.Function]*summary{},
+		builtSeen:        map[*ssa.Package]bool{},
 		solver:           smt.NewSolver(),
 		reverseMaps:      cfg.ReverseMaps,
 		tracing:          cfg.Trace,
